@@ -24,7 +24,7 @@ MANIFEST = dict(
         "for every objective (arbitrary f, grad, feasibility predicate), starting point, parameter setting and number of steps. "
         "(1) value consistency: best_value_is_f_best_point (init + every step, every optimizer of the model, every scalar type incl. Float), best_value_is_f_best_point_history (every history of init / step / init-again-on-the-used-object / archive-and-restore into any object; 'best' is the current iterate, for SteepestDescent and Adam the last one), "
         "trn_value_is_f_point (TrustRegionNewton: value, gradient and Hessian are those of the reported point, every scalar type), dlinmin_sound (every scalar type, no hypothesis), wolfecubic_contract / dlinmin_contract / backtracking_contract / lineSearchOf_contract "
-        "(the modelled line searches, every type, every initial bracket, every sqrt: value = f(point), gradient = grad(point), same dimension, no increase along a non-ascent direction; dlinmin_no_increase needs no hypothesis on the direction), ls_derivative_is_grad_best_point; "
+        "(the modelled line searches, every type, every initial bracket, every sqrt: value = f(point), gradient = grad(point), same dimension, no increase along a non-ascent direction; dlinmin_no_increase needs no hypothesis on the direction), ls_derivative_is_grad_best_point, wolfecubic_single_strong_wolfe (when the bracketing phase accepts a trial step outright the returned point satisfies both strong Wolfe conditions with c1 = 1e-4, c2 = 0.9, or the start is kept); "
         "(2) line-search methods never increase the objective, over whole runs and with NO hypothesis about the line search left: linesearch_methods_monotone_bfgs_modelled (bfgsUpdate_listPD keeps the inverse-Hessian approximation SPD, incl. the reset branch), "
         "linesearch_methods_monotone_lbfgs_modelled (lbfgs_two_loop_is_matrix: for every history length the two loops of multBInv compute M x where M is (1/bdiag) I followed by one BFGS inverse update per stored pair, and M is symmetric positive definite because updateHist only stores pairs with y's > 1e-10; lbfgs_direction_descent), "
         "linesearch_methods_monotone_cg_modelled (CG with the modelled wolfecubic or backtracking on every objective with a monotone gradient, i.e. every convex objective incl. all strictly convex quadratics: cg_direction_nonascent shows that periodic reset, restart branch and Dai-Yuan update give non-ascent directions whenever d'(g - g_old) >= 0, with the identity g'd_new = |g|^2 (g_old'd)/(d'(g-g_old)); wolfecubic_ray/backtracking_ray: only non-negative step lengths are tried); "
